@@ -66,6 +66,20 @@ func (g gen) u32() uint32 {
 	}
 }
 
+// partsTotal: the part count of a block id in a message the node can have logged. Every message
+// passes ValidateBasic before it reaches the consensus state and its log, and that refuses part
+// counts above types.MaxBlockPartsCount.
+func (g gen) partsTotal() uint32 {
+	switch g.t.Weighted(6, 3, 1) {
+	case 0:
+		return uint32(g.t.Draw(20))
+	case 1:
+		return uint32(g.t.Draw(types.MaxBlockPartsCount + 1))
+	default:
+		return []uint32{types.MaxBlockPartsCount, types.MaxBlockPartsCount - 1, 1}[g.t.Draw(3)]
+	}
+}
+
 // fill returns n bytes from a tape-chosen pattern (a few draws, whatever n is).
 func (g gen) fill(n int) []byte {
 	b := make([]byte, n)
@@ -103,7 +117,7 @@ func (g gen) blockID(complete bool) types.BlockID {
 	if !complete {
 		return types.BlockID{}
 	}
-	return types.BlockID{Hash: g.hash(true), PartsHeader: types.PartSetHeader{Total: g.u32(), Hash: g.hash(true)}}
+	return types.BlockID{Hash: g.hash(true), PartsHeader: types.PartSetHeader{Total: g.partsTotal(), Hash: g.hash(true)}}
 }
 
 func (g gen) ts() time.Time {
